@@ -18,7 +18,7 @@ RULE = ("Composite apertures: Hypothesis draws ring count, samples per segment (
         "the segment's mask and is constant there, coefficients of one segment never leak outside it, and compose_opd is "
         "linear (1e-12).  Primitives: membership vs the analytic inequality evaluated by the harness for all samples "
         "farther than the stated band from the boundary, inclusion under growth of the size parameter, mirror / rotation "
-        "symmetries that map the sample grid onto itself, about the origin sample.  Non-trivial = more than one segment and "
+        "symmetries that map the sample grid onto itself, about the origin sample; the rectangle with circular corner fillets is compared with straight edges plus quarter circles (band: the sagitta of one chord of its polygonal outline); hexagonal apertures also on arrays that show only part of the aperture.  Non-trivial = more than one segment and "
         "a boundary crossing the grid (composites); shape neither empty nor filling the grid (primitives).  "
         "Input classes drawn for every clause: memory layout of the coordinate grids (C / Fortran / transposed view / strided view); "
         "for the primitives also float32 and integer (int64 / int32, whole-number) coordinate arrays and size parameters snapped to whole "
@@ -1189,6 +1189,67 @@ def check_rect_ellipse(case, ctx):
     ctx.nt(nontriv)
     keep.verify('rect-ellipse')
 
+# ---- rectangle with circular corner fillets ---------------------------------------------------------------------------------------
+def strat_fillet(tier):
+    N = 40 if tier == 'quick' else 96
+    ax = st.integers(8, N)
+    frac = st.integers(150, 1100).map(lambda v: v / 1000)
+    return st.fixed_dictionaries({
+        'shape': st.tuples(ax, ax).map(list), 'dx': st.sampled_from([1.0, 0.1, 0.037]),
+        'w': frac, 'h': frac, 'cf': st.integers(50, 950).map(lambda v: v / 1000), 'grow': st.integers(1, 400).map(lambda v: v / 1000),
+        'center': st.one_of(st.just([0.0, 0.0]), st.tuples(st.integers(-300, 300).map(lambda v: v / 1000), st.integers(-300, 300).map(lambda v: v / 1000)).map(list)),
+        'angle': st.one_of(st.just(0.0), st.just(0.0), st.sampled_from([90.0, 45.0, 30.0, 180.0, -90.0]), st.integers(-3600, 3600).map(lambda v: v / 10)),
+        'layout': U.layouts,
+    })
+
+
+def check_fillet(case, ctx):
+    """rectangle_with_corner_fillets (half-extents, fillet radius): analytic membership (straight edges and quarter-circle corners) for one rotation
+    sense, growth with the size, mirror symmetry when centred and unrotated."""
+    from prysm import geometry as G
+    keep = Keep(ctx)
+    ny, nx = case['shape']
+    dx = float(case['dx'])
+    x, y = grid(ny, nx, dx, case.get('layout', 'C'))
+    keep.arg('x', x), keep.arg('y', y)
+    xe, ye = x.astype(np.float64), y.astype(np.float64)
+    half = min(ny, nx) // 2 * dx
+    w, h = case['w'] * half, case['h'] * half
+    c = case['cf'] * min(w, h)
+    cen = (case['center'][0] * half, case['center'][1] * half)
+    ang = case['angle']
+    ctx.label('fillet-angle:%s' % ('0' if ang == 0 else 'other'), 'centred' if cen == (0.0, 0.0) else 'off-centre', 'layout:' + case.get('layout', 'C'))
+
+    def model(sense, w_, h_, c_):
+        xr, yr = _rot(xe, ye, sense * ang)
+        ax_, ay_ = np.abs(xr - cen[0]), np.abs(yr - cen[1])
+        mg = np.maximum(ax_ - w_, ay_ - h_)
+        corner = (ax_ > w_ - c_) & (ay_ > h_ - c_)
+        mg = np.where(corner, np.hypot(ax_ - (w_ - c_), ay_ - (h_ - c_)) - c_, mg)
+        return mg <= 0, mg
+    # the outline is a polygon whose arcs are sampled about once per sample spacing: it stays inside the analytic outline by at most
+    # the sagitta of one chord, (chord)^2 / (8 c) with chord <= 2 dx
+    band = (2 * dx) ** 2 / (8 * c) + 1e-7 * max(half, w, h)
+    m = keep.result('rectangle_with_corner_fillets', np.asarray(ctx.call(G.rectangle_with_corner_fillets, w, h, c, x, y, center=cen, rotation=ang)))
+    U.check_shape(m, (ny, nx), 'fillet-rectangle')
+    msgs = []
+    for sense in (+1, -1):
+        inside, mg = model(sense, w, h, c)
+        msg = compare_mask(ctx, m, inside, mg, band, 'fillet-rectangle', 'rectangle_with_corner_fillets(%g, %g, %g, center=%r, rotation=%g)' % (w, h, c, cen, ang))
+        if msg is None:
+            break
+        msgs.append(msg)
+    else:
+        ctx.fail('fillet-rectangle:membership:angle=%s' % ('0' if ang == 0 else 'other'), ' / '.join(msgs))
+    ctx.nt(bool(np.any(m)) and not bool(np.all(m)) and bool(np.any((mg > -c) & (mg <= 0))))
+    k = 1 + case['grow']
+    m2 = np.asarray(ctx.call(G.rectangle_with_corner_fillets, w * k, h * k, c * k, x, y, center=cen, rotation=ang))
+    viol = (m != 0) & (m2 == 0) & (np.abs(mg) > band)
+    ctx.require(not viol.any(), 'fillet-rectangle:monotone', 'the filleted rectangle does not grow with its size (%d samples lost)' % int(viol.sum()))
+    if ang == 0 and cen == (0.0, 0.0):
+        check_symmetry(ctx, m, mg, band, ['flipx', 'flipy', 'rot180'], 'fillet-rectangle', 'rectangle_with_corner_fillets(%g,%g,%g)' % (w, h, c))
+    keep.verify('fillet-rectangle')
+
 
 def strat_spider(tier):
     N = 40 if tier == 'quick' else 96
@@ -1281,5 +1342,6 @@ CLAUSES = [
     HypClause('round_masks', strat_round, check_round, examples={'quick': 1200, 'thorough': 6000}, shards={'quick': 1, 'thorough': 6}),
     HypClause('polygon', strat_polygon, check_polygon, examples={'quick': 1200, 'thorough': 6000}, shards={'quick': 1, 'thorough': 6}),
     HypClause('rect_ellipse', strat_rect, check_rect_ellipse, examples={'quick': 1200, 'thorough': 6000}, shards={'quick': 1, 'thorough': 6}),
+    HypClause('filleted_rectangle', strat_fillet, check_fillet, examples={'quick': 300, 'thorough': 2000}, shards={'quick': 2, 'thorough': 6}),
     HypClause('spider', strat_spider, check_spider, examples={'quick': 1200, 'thorough': 6000}, shards={'quick': 1, 'thorough': 6}),
 ]
